@@ -118,8 +118,15 @@ class FakeRandom:
         self.answers.append(a)
         return a
 
-    def Random(self, *a: Any, **kw: Any) -> "FakeRandom":
-        """The tracer may keep a private generator (random.Random()): it is this same explorer-owned object."""
+    def Random(self, *a: Any, **kw: Any) -> Any:
+        """The tracer may keep a private generator. An unseeded random.Random() is a source of randomness: it is this same
+        explorer-owned object. A generator constructed with an explicit seed is a deterministic function of that seed
+        (every tracing session replays the same stream), so it is NOT a choice point: the real seeded generator is handed
+        out, the explorer sees no draws, and the frequency oracle reports that nothing random decides what is traced."""
+        if (a and a[0] is not None) or kw.get("x") is not None:
+            import random as _real
+
+            return _real.Random(*a, **kw)
         return self
 
     def seed(self, *a: Any, **kw: Any) -> None:
@@ -228,11 +235,17 @@ def judge_run(res: Result, case: Dict[str, Any], col, rec, residue: int, rate, w
         hit = next((j for j in cands if facts(done[j]) == lf), None)
         if hit is None:
             r = done[cands[0]]
-            # the known defect needs a sampling rate and a draw sequence that skips before it samples; anything else
-            # (rate None/1, or every draw sampling) is a different failure even if the frame was resumed
+            # the known defect: a frame whose START drew 'skip' and one of whose RESUMPTIONS drew 'sample' (the trace then
+            # begins in mid-life). Draw i belongs to the i-th frame activation the interpreter reported; anything else - no
+            # rate, every draw sampling, a frame sampled at its start and disturbed later - is a different failure
             ans = case.get("answers") if isinstance(case.get("answers"), list) else []
-            skipped_then_sampled = bool(case.get("rate") and case["rate"] >= 2 and any(a != 0 for a in ans[: max(0, len(ans) - 1)]) and any(a == 0 for a in ans[1:]))
-            sig = "sampled-on-resumption" if (skipped_then_sampled and any(done[j].resumes > 0 for j in cands)) else "shape:" + case["program"]
+            started_late = False
+            if case.get("rate") and case["rate"] >= 2 and len(ans) == len(rec.events):
+                for j in cands:
+                    mine = [a for a, ev in zip(ans, rec.events) if ev is done[j]]
+                    if mine and mine[0] != 0 and any(a == 0 for a in mine[1:]):
+                        started_late = True
+            sig = "sampled-on-resumption" if started_late else "shape:" + case["program"]
             ef = facts(r)
             kind = "arg-types" if ef[0] != lf[0] else ("yield-type" if ef[1] != lf[1] else "return-type")
             res.violate(Violation(ID, kind, sig, case, f"{where}: {r.code.co_qualname}: logged (args, yield, return) = {lf} describes no completed call of it; the calls were {[facts(done[j]) for j in cands]}"))
@@ -413,7 +426,7 @@ def sessions_and_cli(ctx: Ctx) -> Result:
         old = tracing.random
         tracing.random = fake  # type: ignore[assignment]
         try:
-            cli.main(["-c", "mcfg:CONFIG", "run", str(script)], io.StringIO(), io.StringIO())
+            cli.main(["-c", "mcfg:fresh()", "run", str(script)], io.StringIO(), io.StringIO())
         finally:
             tracing.random = old  # type: ignore[assignment]
         st = mcfg.CONFIG.trace_store()
@@ -456,7 +469,7 @@ def replay(case: Dict[str, Any], ctx: Ctx) -> List[Violation]:
     fake = FakeRandom()
     if case.get("pi", 0) < 0:
         return sessions_and_cli(ctx).violations
-    if case["answers"] == "expectation" or case.get("answers") is None:
+    if case["answers"] == "expectation" or not case.get("answers"):
         explore_program(res, M, files, case["pi"], case["rate"], fake)
         return [v for v in res.violations if v.kind == "frequency"] or res.violations
     name, expr, plain = PROGRAMS[case["pi"]]
